@@ -4,7 +4,7 @@
    recovery or from the packet parser is an input of the op), vocabulary in model/TimersSpec.v,
    proofs in proofs/TimersP.v.  All theorems quantify over ALL op sequences that begin with
    connect() on a client or with a first receive_datagram() on a server. *)
-From AQ Require Import lib.Base model.Timers model.TimersSpec proofs.TimersP.
+From AQ Require Import lib.Base model.Timers model.TimersSpec proofs.TimersP model.TimersFull model.TimersFullSpec proofs.TimersFullP.
 
 (* Until termination _close_at is set: get_timer() does not raise (the comparison with None is
    unreachable) and returns a finite time not later than _close_at, whatever the ack / loss /
@@ -105,3 +105,70 @@ Print Assumptions end_states_send_nothing.
 Theorem close_begins : forall k c, c_close_event c = None -> began (do_close k c).
 Proof. exact began_do_close. Qed.
 Print Assumptions close_begins.
+
+(* ---------------------------------------------------------------------------------------------------------------
+   The composed model (model/TimersFull.v): the timer sources are STATE -- per-space ack_at / loss_time /
+   ack_eliciting_in_flight / discarded, peer_completed_address_validation, _pto_count, _pacing_at -- armed and cleared as
+   the code does it; get_timer() is Timers.get_timer applied to the sources computed from that state.  [reset] = does
+   datagrams_to_send clear _pacing_at first (docs/C09-fix-1.patch; the tree is probed: gen/C09Consts.PACING_RESET). *)
+
+(* Every run of the composed model is a run of model/Timers.v with the same per-call results and the same connection
+   state: the 11 theorems above hold of it (timer_defined: for the sources it computes). *)
+Theorem full_refines_timers : forall reset client o ops, ffirst_op client o ->
+  exists o' ops', first_op client o' /    fst (frun reset (full_init client) (o :: ops)) = fst (run (conn_init client) (o' :: ops')) /    f_c (snd (frun reset (full_init client) (o :: ops))) = snd (run (conn_init client) (o' :: ops')).
+Proof. exact full_refines_timers_lemma. Qed.
+Print Assumptions full_refines_timers.
+
+(* timer_sources_sound.  In every reachable state that is not TERMINATED: _close_at = Some d; in CLOSING / DRAINING
+   get_timer() = d; otherwise get_timer() = v where (v, s) = timer_src: v is a lower bound of every armed source
+   (_close_at, each space's ack_at, the loss detection time, _pacing_at) and IS the source s, which is legitimate:
+   an ack_at only of a space that is not discarded and owes an ACK (an ack-eliciting packet was recorded since the
+   last ACK frame); a loss_time only of a non-discarded space, the one _get_loss_space() picks; the PTO deadline only
+   when no space has a loss_time and (the peer has not completed address validation or a non-discarded space has
+   ack-eliciting packets in flight).  Every space satisfies sp_ok: a discarded space has ack_at = loss_time = None and
+   nothing in flight, and ack_at is armed exactly while an ACK is owed. *)
+Theorem timer_sources_sound : forall reset client o ops ptod, ffirst_op client o ->
+  let f := snd (frun reset (full_init client) (o :: ops)) in
+  c_state (f_c f) <> TERMINATED ->
+  exists d, c_close_at (f_c f) = Some d /    (is_end (c_state (f_c f)) = true -> fst (fget_timer ptod f) = Ok (Some d)) /    (is_end (c_state (f_c f)) = false ->
+       fst (fget_timer ptod f) = Ok (Some (fst (timer_src ptod d f))) /       src_legit ptod d f (fst (timer_src ptod d f)) (snd (timer_src ptod d f)) /       lower_bound ptod d f (fst (timer_src ptod d f))) /    Forall sp_ok (f_sp f).
+Proof. exact timer_sources_sound_lemma. Qed.
+Print Assumptions timer_sources_sound.
+
+(* timer_progress (partial: see progress_of).  Reachable live state, get_timer() = v from source s; the adapter fires
+   handle_timer(v) and transmits datagrams_to_send(v).  s = _close_at: TERMINATED.  s = loss_time of space i:
+   _detect_loss ran on exactly that space (its new loss_time is the value _detect_loss computed).  s = PTO: _pto_count
+   + 1 and a probe is scheduled.  s = _pacing_at: provided the pacer answers None or a time after now, and provided
+   (reset = true, i.e. the fix) or _write_application is reached and consults the pacer: afterwards the connection is
+   closing or _pacing_at is None or later than v.  NOT covered (hence _partial): s = ack_at -- the ACK leaves only if the
+   packet can be built (observation O1) -- and that the recomputed loss_time is later than v (exact arithmetic: yes;
+   floats: C19's O3(a)). *)
+Theorem timer_progress_partial : forall reset client o ops ptod pto3 te w d v s, ffirst_op client o ->
+  let f := snd (frun reset (full_init client) (o :: ops)) in
+  c_close_at (f_c f) = Some d -> is_end (c_state (f_c f)) = false -> timer_src ptod d f = (v, s) ->
+  progress_of reset ptod pto3 te w f v s.
+Proof. exact timer_progress_partial_lemma. Qed.
+Print Assumptions timer_progress_partial.
+
+(* timer_progress_pacing_refuted.  The code as it is (reset = false): there is a server history (stale_history) after
+   which get_timer() = v = _pacing_at in a CONNECTED state, and firing handle_timer(v); datagrams_to_send(v) --
+   _write_handshake raises QuicPacketBuilderStop under the anti-amplification limit, _write_application is not reached
+   -- returns nothing and leaves the connection in exactly the same state with get_timer() = v again: honouring
+   get_timer() loops forever (spin n = the state after n rounds) until some other input arrives.
+   Replayed on the real QuicConnection by docs/C09-repro-pacing.py. *)
+Theorem timer_progress_pacing_refuted :
+  exists ops ptod d v,
+    let f := snd (frun false (full_init false) ops) in
+    (exists o t, ops = o :: t /\ ffirst_op false o) /    c_close_at (f_c f) = Some d /\ c_state (f_c f) = CONNECTED /    timer_src ptod d f = (v, SrcPacing) /\ pacer_sane v stale_send /    fst (fstep false f (FGetTimer ptod)) = RTimer (Some v) /    let f0 := snd (fstep false f (FGetTimer ptod)) in
+    fst (frun false f0 (stale_loop ptod v)) = [RUnit; RSent SNone; RTimer (Some v)] /    forall n, spin false n (stale_loop ptod v) f0 = f0.
+Proof. exact timer_progress_pacing_refuted_lemma. Qed.
+Print Assumptions timer_progress_pacing_refuted.
+
+(* With the reset (docs/C09-fix-1.patch) the same history does not spin: one round clears _pacing_at and the next
+   get_timer() is the PTO deadline. *)
+Theorem timer_progress_pacing_fixed :
+  let f := snd (frun true (full_init false) stale_history) in
+  let f0 := snd (fstep true f (FGetTimer 300)) in
+  timer_src 300 1010 f = (11, SrcPacing) /  f_pacing (snd (frun true f0 (stale_loop 300 11))) = None /  fst (frun true f0 (stale_loop 300 11)) = [RUnit; RSent SNone; RTimer (Some 300)].
+Proof. exact stale_history_fixed. Qed.
+Print Assumptions timer_progress_pacing_fixed.
